@@ -54,6 +54,8 @@ Cli == /\ Live("cli") /\ UNCHANGED stats
        /\ JudgeK((IF EncRefused(s.stim)
                   THEN << <<"C05.UnsupportedRequestEncodingIsUnimplemented", ~E.ok /\ E.st.code = 12>> >>
                   ELSE ClientClauses(s.stim, E)) \o << <<"HarnessOK", ~Is(s.cli)>> >>, [s EXCEPT !.cli = E])
+\* events of other labs' concerns (deadline timing, handler completion) carry no clause here
+Ignore == /\ l <= Len(Rec) /\ ~dead /\ E.e \in {"timing", "srv_done"} /\ l' = l + 1 /\ UNCHANGED <<run, dead, bad, s, stats>>
 ConnectErr == /\ Live("connect_err") /\ UNCHANGED stats /\ JudgeK(<< <<"HarnessOK", FALSE>> >>, s)
 
 \* ---- raw requests into the server stack (C05, request side)
@@ -112,8 +114,8 @@ End == EndK(<< <<"RunComplete", E.outcome = "ok" =>
                    /\ ((ClientMode /\ Tapped) => Is(s.reqHead))>>,
                <<"C02.HandlerInvoked", (E.outcome = "ok" /\ ClientMode /\ ~EncRefused(s.stim)) => Is(s.srv)>> >>)
 
-Known == {"reset", "cli_built", "req_head", "frame", "srv_req", "resp_head", "cli", "connect_err", "raw_sent", "raw_err", "bodies", "end"}
-Next == Reset \/ CliBuilt \/ ReqHead \/ FrameEv \/ SrvReq \/ RespHead \/ Cli \/ ConnectErr \/ RawSent \/ RawErr \/ Bodies \/ End
+Known == {"timing", "srv_done", "reset", "cli_built", "req_head", "frame", "srv_req", "resp_head", "cli", "connect_err", "raw_sent", "raw_err", "bodies", "end"}
+Next == Reset \/ CliBuilt \/ ReqHead \/ FrameEv \/ SrvReq \/ RespHead \/ Cli \/ ConnectErr \/ RawSent \/ RawErr \/ Bodies \/ End \/ Ignore
         \/ UnknownK(Known) \/ DeadSkipK
 Spec == Init /\ [][Next]_kvars
 =============================================================================
